@@ -28,7 +28,6 @@ DB = os.path.join(ROOT, "tools", "canon.json")
 # (lean name, file, kind, rust name): kind fn = `fn name` .. matching brace; struct = `struct name` .. brace;
 # block = a `name! {` .. brace macro invocation
 ITEMS = [
-    ("int_struct", "qasm/int/mod.rs", "struct", "Int"),
     ("macro_struct", "qasm/int/macros.rs", "struct", "Macro"),
     ("macro_argument_name", "qasm/int/macros.rs", "fn", "argument_name"),
     ("macro_new", "qasm/int/macros.rs", "fn", "new"),
@@ -36,11 +35,7 @@ ITEMS = [
     ("macro_process_nested", "qasm/int/macros.rs", "fn", "process_nested"),
     ("parse_context", "qasm/int/parse.rs", "block", "thread_local"),
     ("parse_eval_extended", "qasm/int/parse.rs", "fn", "eval_extended"),
-    ("sym_struct", "qasm/sym.rs", "struct", "Sym"),
-    ("sym_new", "qasm/sym.rs", "fn", "new"),
     ("sym_init", "qasm/sym.rs", "fn", "init"),
-    ("sym_get_class", "qasm/sym.rs", "fn", "get_class"),
-    ("sym_get_probabilities", "qasm/sym.rs", "fn", "get_probabilities"),
 ]
 
 KEYWORDS = set("""as break const continue crate else enum extern false fn for if impl in let loop match mod move mut
